@@ -13,7 +13,7 @@
    rewrite relation; the skip and squash lemmas by induction on the input), no axioms. *)
 From Coq Require Import List NArith.
 Import ListNotations.
-From PP Require Import Base Syntax Spec SpecSyn SpecMono SpecLaws SpecEquiv Opt OptProof OptSkip Interp InterpProof Gen GenProof OptPass OptPassProof OptPassInline OptPassCompose OptPassIdem OptPassSilent OptPassSkip OptPassHeads OptMono.
+From PP Require Import Base Syntax Spec SpecSyn SpecMono SpecLaws SpecEquiv Opt OptProof OptSkip Interp InterpProof Gen GenProof OptPass OptPassProof OptPassInline OptPassCompose OptPassIdem OptPassSilent OptPassSkip OptPassHeads OptMono OptPassSilentProof.
 
 (* `req`: same constructor; on success the same tree and the same final position, stack and tags;
    failure with failure; undefined rule with undefined rule *)
@@ -174,9 +174,29 @@ Theorem C02_modelled_passes_compose : forall bi g g',
     (forall f r, parse g' f rule input k = r -> r <> Fuel -> exists f', req (parse g f' rule input k) r).
 Proof. exact psteps_geq. Qed.
 
+(* ---- the inline-silent PASS itself: inliners.inline_silent_rules with the cycle check _refers_to, run bottom-up
+   and IN PLACE over the table in dict order (a rule rewritten earlier is seen in its new form by the rules
+   rewritten after it). For every grammar with distinct rule names, no user rule on the reserved SKIP identifier
+   and any duplicate-free order: the table the pass produces is accepted by the validator, hence parses like the
+   original. (Invariant through the fold: the current body of every rule is a validated image of its original body;
+   OptMono.ochk_mono_le lifts the older facts to the growing fuel.) *)
+Theorem C02_inline_silent_pass_output_is_validated : forall bi order g,
+  names_nodup g = true -> defined_in g SKIP_ID = false -> nodupN order = true ->
+  ochk_grammar g (pass_inline_silent bi order g) (length order * gdepth g + gdepth g) = true.
+Proof. exact pass_inline_silent_validated. Qed.
+
+Theorem C02_inline_silent_pass_preserves_meaning : forall bi order g,
+  names_nodup g = true -> defined_in g SKIP_ID = false -> nodupN order = true ->
+  forall rule input k, defined_in g rule = true ->
+    (forall f r, parse g f rule input k = r -> r <> Fuel ->
+       exists f', req (parse (pass_inline_silent bi order g) f' rule input k) r) /\
+    (forall f r, parse (pass_inline_silent bi order g) f rule input k = r -> r <> Fuel ->
+       exists f', req (parse g f' rule input k) r).
+Proof. exact pass_inline_silent_sound. Qed.
+
 (* ---- what no modelled pass changes ----
-   all four modelled passes (unroll, inline built-in, and the two in-place passes inline silent and skip, which are
-   tied exactly but whose meaning preservation is NOT proved) return the same rules in the same order, each with its
+   all four modelled passes (unroll, inline built-in, inline silent, and skip, which is tied exactly but whose
+   meaning preservation is NOT proved) return the same rules in the same order, each with its
    name, silence and atomicity: only bodies are rewritten; no rule is added, dropped, renamed or re-modified *)
 Theorem C02_modelled_passes_keep_rule_heads : forall bi any_id fuel order g,
   same_heads g (pass_unroll bi g) /\
@@ -263,11 +283,28 @@ Proof.
   eapply PSS_cons; [apply PS_unroll|]. apply PSS_nil.
 Qed.
 
+(* a chain of plain silent rules and a recursive one: 6 is inlined into 5 first, 5 (already rewritten) into 4;
+   the recursive silent rule 7 is left alone *)
+Example inline_silent_pass_rewrites :
+  let g := [R 4 false KNormal (ESeq [ERef 5 None; ERef 7 None; ERef 5 (Some 0%N)]);
+            R 6 true KNormal (EStr [98%N]);
+            R 5 true KNormal (EAlt [ERef 6 None; EStr [97%N]]);
+            R 7 true KNormal (EOpt (ESeq [EStr [99%N]; ERef 7 None]))] in
+  names_nodup g = true /\ defined_in g SKIP_ID = false /\ nodupN [6;5;7;4]%N = true /\
+  pass_inline_silent (fun _ => false) [6;5;7;4]%N g =
+    [R 4 false KNormal (ESeq [EAlt [EStr [98%N]; EStr [97%N]]; ERef 7 None; ERef 5 (Some 0%N)]);
+     R 6 true KNormal (EStr [98%N]);
+     R 5 true KNormal (EAlt [EStr [98%N]; EStr [97%N]]);
+     R 7 true KNormal (EOpt (ESeq [EStr [99%N]; ERef 7 None]))].
+Proof. vm_compute. repeat split; reflexivity. Qed.
+
 Print Assumptions C02_validated_optimization_preserves_meaning.
 Print Assumptions C02_modelled_passes_compose.
 Print Assumptions C02_unroll_pass_idempotent.
 Print Assumptions C02_modelled_passes_keep_rule_heads.
 Print Assumptions C02_validator_monotone_in_fuel.
+Print Assumptions C02_inline_silent_pass_output_is_validated.
+Print Assumptions C02_inline_silent_pass_preserves_meaning.
 Print Assumptions C02_inline_builtin_pass_output_is_validated.
 Print Assumptions C02_inline_builtin_pass_preserves_meaning.
 Print Assumptions C02_unroll_pass_output_is_validated.
